@@ -438,6 +438,9 @@ func Walk(cfg *Config, fn *ssa.Function) []*Path {
 	if cfg.MaxDepth == 0 {
 		cfg.MaxDepth = 8
 	}
+	if cfg.GlobalLen == nil {
+		cfg.GlobalLen = ScanGlobalLens(cfg.P)
+	}
 	w := &walker{cfg: cfg, fn: fn}
 	st := &state{heap: map[string]hent{}, val: map[string]bool{}, seenCall: map[string]ssa.Instruction{},
 		closures: map[*Term]*ssa.MakeClosure{}, cloEnv: map[*Term][]*Term{}, typeCount: map[string]int{}}
@@ -726,6 +729,13 @@ func foldBin(op token.Token, x, y constant.Value) (r constant.Value, ok bool) {
 func (w *walker) lenOf(s *state, t *Term) *Term {
 	if t.Op == "ref" {
 		l := t.Loc
+		if strings.HasPrefix(l.Root, "G:") && len(l.Path) == 0 {
+			if _, written := s.heap[l.key()]; !written {
+				if n, ok := w.cfg.GlobalLen[l.Root]; ok {
+					return constTerm(constant.MakeInt64(n))
+				}
+			}
+		}
 		if len(l.Path) == 0 && l.Len >= 0 {
 			return constTerm(constant.MakeInt64(l.Len))
 		}
@@ -751,6 +761,11 @@ func (w *walker) lenOf(s *state, t *Term) *Term {
 	}
 	if t.Nil {
 		return constTerm(constant.MakeInt64(0))
+	}
+	if strings.HasPrefix(t.Op, "@") && len(t.Args) == 0 {
+		if n, ok := w.cfg.GlobalLen["G:"+t.Op[1:]]; ok {
+			return constTerm(constant.MakeInt64(n))
+		}
 	}
 	return mk("len", t)
 }
@@ -1123,8 +1138,7 @@ func (w *walker) run(s *state) {
 			}
 			other := s.clone()
 			ofr := other.frames[len(other.frames)-1]
-			other.lits = append(other.lits, Lit{atom, !pol == false})
-			other.lits[len(other.lits)-1] = Lit{atom, !pol}
+			other.lits = append(other.lits, Lit{Atom: atom, Val: !pol, Term: c})
 			other.val[atom] = !pol
 			// `other` takes the false successor: cond false  <=> atom == !pol
 			if w.enter(other, ofr, ofr.block.Succs[1]) {
@@ -1132,7 +1146,7 @@ func (w *walker) run(s *state) {
 			} else {
 				w.giveUp(other, "loop bound exceeded in "+load.FuncName(fr.fn))
 			}
-			s.lits = append(s.lits, Lit{atom, pol})
+			s.lits = append(s.lits, Lit{Atom: atom, Val: pol, Term: c})
 			s.val[atom] = pol
 			if !w.enter(s, fr, fr.block.Succs[0]) {
 				w.giveUp(s, "loop bound exceeded in "+load.FuncName(fr.fn))
@@ -1395,8 +1409,9 @@ func (w *walker) uninterpreted(s *state, fr *frame, instr ssa.CallInstruction, a
 			ct = cargs[0]
 		}
 	}
-	// distinguish repeated constructor calls
-	if len(cargs) == 0 {
+	// distinguish repeated constructor calls (objects with identity, such as
+	// hash states); value setters like One()/Zero() denote the same value each time
+	if len(cargs) == 0 && len(all) == 0 {
 		key := ct.String()
 		if prev, ok := s.seenCall[key]; ok && prev != instr.(ssa.Instruction) {
 			ct = mk(fmt.Sprintf("%s#%d", name, len(s.seenCall)))
@@ -1501,5 +1516,40 @@ func (w *walker) invokeWrites(fn *ssa.Function, instr ssa.CallInstruction, commo
 		}
 	}
 	sort.Ints(out)
+	return out
+}
+
+// ScanGlobalLens finds package-level slice variables of the module that are
+// initialised from a literal (a slice of a fixed-size array built in the
+// package initialiser) and returns their lengths.  C18 (GLOBAL-store)
+// guarantees nothing writes them afterwards.
+func ScanGlobalLens(p *load.Program) map[string]int64 {
+	out := map[string]int64{}
+	for _, fn := range p.ModuleFuncs() {
+		if fn.Name() != "init" || fn.Parent() != nil {
+			continue
+		}
+		for _, b := range fn.Blocks {
+			for _, in := range b.Instrs {
+				st, ok := in.(*ssa.Store)
+				if !ok {
+					continue
+				}
+				g, ok := st.Addr.(*ssa.Global)
+				if !ok {
+					continue
+				}
+				sl, ok := st.Val.(*ssa.Slice)
+				if !ok || sl.Low != nil || sl.High != nil {
+					continue
+				}
+				if pt, ok := sl.X.Type().Underlying().(*types.Pointer); ok {
+					if arr, ok := pt.Elem().Underlying().(*types.Array); ok {
+						out["G:"+load.Rel(g.Pkg.Pkg)+"."+g.Name()] = arr.Len()
+					}
+				}
+			}
+		}
+	}
 	return out
 }
